@@ -239,6 +239,114 @@ type fakeResolver struct{ ips []net.IP }
 
 func (f fakeResolver) LookupIP(context.Context, string) ([]net.IP, error) { return f.ips, nil }
 
+type hostResolver map[string][]net.IP
+
+func (h hostResolver) LookupIP(_ context.Context, host string) ([]net.IP, error) { return h[host], nil }
+
+// TestVerifC18DialSequences: the guard must decide every dial on its own: all ordered PAIRS of dial requests issued on ONE
+// Service (the object that lives as long as a processor) - nothing an earlier admitted dial leaves behind may admit a later one.
+func TestVerifC18DialSequences(t *testing.T) {
+	rep, done := report(t, "dialseq")
+	defer done()
+	alphabet := []string{"93.184.216.34", "127.0.0.1", "10.0.0.5", "169.254.169.254", "2606:4700::1111", "::1", "::ffff:10.0.0.5"}
+	public := map[string]bool{"93.184.216.34": true, "2606:4700::1111": true}
+	allowlists := map[string][]AllowEntry{
+		"carve 10.0.0.5:8080": {{Scheme: "http", Host: "10.0.0.5", Port: "8080", IP: net.ParseIP("10.0.0.5")}, {Scheme: "https", Host: "h1.example", Port: "443"}},
+		"carve 127.0.0.1:80":  {{Scheme: "http", Host: "127.0.0.1", Port: "80", IP: net.ParseIP("127.0.0.1")}},
+		"carve ::1:8080":      {{Scheme: "http", Host: "::1", Port: "8080", IP: net.ParseIP("::1")}},
+		"none":                nil,
+	}
+	type request struct {
+		answers []string
+		port    string
+		literal bool
+	}
+	var reqs []request
+	for _, port := range []string{"80", "8080", "443"} {
+		for _, a := range alphabet {
+			reqs = append(reqs, request{[]string{a}, port, true}, request{[]string{a}, port, false})
+			if verifkit.Thorough() {
+				for _, b := range alphabet {
+					reqs = append(reqs, request{[]string{a, b}, port, false})
+				}
+			}
+		}
+	}
+	var alNames []string
+	for k := range allowlists {
+		alNames = append(alNames, k)
+	}
+	sort.Strings(alNames)
+	shard, n := verifkit.Shard()
+	rep.Bound("requests", len(reqs))
+	rep.Bound("ordered_request_pairs", len(reqs)*len(reqs))
+	idx := 0
+	for _, aln := range alNames {
+		for i, r1 := range reqs {
+			for j, r2 := range reqs {
+				idx++
+				if idx%n != shard {
+					continue
+				}
+				pol := Policy{Enabled: true, Allowlist: allowlists[aln]}
+				res := hostResolver{}
+				svc := New(pol, log.Nop(), WithResolver(res))
+				var attempts []string
+				base := &net.Dialer{Timeout: time.Second, Control: func(network, address string, c syscall.RawConn) error {
+					if err := svc.dialControl(network, address, c); err != nil {
+						return err
+					}
+					attempts = append(attempts, address)
+					return errStop
+				}}
+				dial := svc.dialContext(base)
+				for step, r := range []request{r1, r2} {
+					host := fmt.Sprintf("h%d.example", step)
+					var ips []net.IP
+					for _, a := range r.answers {
+						ips = append(ips, net.ParseIP(a))
+					}
+					res[host] = ips
+					if r.literal {
+						host = r.answers[0]
+					}
+					attempts = nil
+					_, _ = dial(context.Background(), "tcp", net.JoinHostPort(host, r.port))
+					for _, a := range attempts {
+						h, p, _ := net.SplitHostPort(a)
+						ip := net.ParseIP(h)
+						ok := false
+						for pub := range public {
+							if net.ParseIP(pub).Equal(ip) {
+								ok = true
+							}
+						}
+						for _, e := range pol.Allowlist {
+							if e.IP != nil && e.IP.Equal(ip) && e.Port == p {
+								ok = true
+							}
+						}
+						if !ok {
+							rep.AddViolation(verifkit.Violation{Key: "C18/connect-attempt-to-refused-address/after-earlier-dial",
+								Text:   fmt.Sprintf("request #%d on one service: a connection attempt to %s was let through (allowlist %q; request 1 = %+v, request 2 = %+v): it is neither public nor an exact (IP,port) carve-out", step+1, a, aln, r1, r2),
+								Replay: map[string]any{"allowlist": aln, "request1": i, "request2": j}})
+						}
+					}
+				}
+				rep.Eval()
+				rep.Trace()
+				rep.Transitions(2)
+				if idx%50021 == 7 {
+					rep.Sample(map[string]any{"allowlist": aln, "request1": fmt.Sprintf("%+v", r1), "request2": fmt.Sprintf("%+v", r2)})
+				}
+			}
+			rep.State(fmt.Sprintf("%s|%d", aln, i))
+		}
+	}
+	rep.Outcome("pairs")
+	rep.Outcome("decided-independently")
+}
+
 var errStop = errors.New("verif: dial stopped after the Control gate (no connect)")
 
 // TestVerifC18Dial drives the real dialContext + dialControl with every resolver answer sequence of length <= 3 over an
